@@ -19,6 +19,8 @@ ties       : (A) codec   — the real _MIR_get_thunk/_MIR_redirect_thunk/_MIR_ge
                  re-enter MIR, 17-argument functions, permuted first-call orders) under interp, the
                  by-value block parameters of every class (blk, blk1..blk4, rblk) at every position 0..7 ints x 0..9 doubles
                  before the block, passed from MIR and from a C caller that does the psABI placement itself;
+                 multi-result functions over every 1-/2-/3-tuple of result types (i64, narrow ints, f, d, ld), called by a
+                 multi-result MIR call and from a C caller that reads rax:rdx, xmm0:xmm1, st0:st1 itself;
                  interpreter's C interface, eager / lazy / lazy-bb generation at every level and under mixed links
                  (set_interface callback choosing a different interface per module), with an
                  allocator that clobbers caller-saved registers; results, buffers, call logs must coincide
@@ -450,7 +452,7 @@ def stage_regs():
 
 # ====================================================================== (D) programs
 def bad_lines(lines):
-    return [l for l in lines if (l[:2] in ("P ", "H ", "W ", "B ") and " | =" not in l and not l.startswith("H engines"))
+    return [l for l in lines if (l[:2] in ("P ", "H ", "W ", "B ", "T ") and " | =" not in l and not l.startswith("H engines"))
             or l.startswith("E ") or (l.startswith("A ") and not l.endswith(" same"))]
 
 
@@ -486,14 +488,14 @@ def check_prog_batch(engines, batch, tag, env=None):
         rc, lines, err = run_iface(engines, text, plan, f"{tag}_{o}", env, timeout=30)
         if _t.time() - t0 > 25:
             ck.log(f"slow harness run {tag}_{o} {engines}: {_t.time() - t0:.0f}s rc={rc} programs {[P.name for P, _ in batch]}")
-        res = [l for l in lines if l[:2] in ("P ", "H ", "W ", "B ", "A ") and not l.startswith("H engines")]
+        res = [l for l in lines if l[:2] in ("P ", "H ", "W ", "B ", "T ", "A ") and not l.startswith("H engines")]
         nexp = sum(nplan(pl[o % len(pl)]) for _, pl in batch)
         nexp += sum(pl[o % len(pl)].count("addrs\n") for _, pl in batch) * (len(engines) - 1)
         if rc != 0 or bad_lines(lines) or len(res) != nexp:
             # isolate per program
             for P, pl in batch:
                 rc1, l1, e1 = run_iface(engines, P.text(), pl[o % len(pl)], f"{tag}_{o}_iso", env, timeout=10)
-                r1 = [l for l in l1 if l[:2] in ("P ", "H ", "W ", "B ", "A ") and not l.startswith("H engines")]
+                r1 = [l for l in l1 if l[:2] in ("P ", "H ", "W ", "B ", "T ", "A ") and not l.startswith("H engines")]
                 n1 = nplan(pl[o % len(pl)]) + pl[o % len(pl)].count("addrs\n") * (len(engines) - 1)
                 if rc1 != 0 or bad_lines(l1) or len(r1) != n1:
                     fails.append({"prog": P, "plan": pl[o % len(pl)], "engines": engines, "lines": bad_lines(l1)[:60], "rc": rc1,
@@ -548,8 +550,8 @@ def classify_prog_failure(f):
         return "c03"
     lvl = [l for l in f["lines"] if same_level_disagreement(f["engines"], l)]
     # only the failing evaluations are re-run (a hanging call costs its 10 s alarm), in plan order
-    keys = [l.split(" | ")[0] for l in f["lines"] if " | " in l and l[:2] in ("P ", "H ", "W ", "B ")][:6]
-    cmd = {"P": "prog", "H": "callh", "W": "wide", "B": "callb"}
+    keys = [l.split(" | ")[0] for l in f["lines"] if " | " in l and l[:2] in ("P ", "H ", "W ", "B ", "T ")][:6]
+    cmd = {"P": "prog", "H": "callh", "W": "wide", "B": "callb", "T": "callm"}
     want = {" ".join([cmd[k[0]]] + k.split()[1:]) for k in keys}
     sub = [l for l in f["plan"].split("\n") if l.strip() in want]
     plan = ("\n".join(sub) + "\n") if (sub and f["rc"] == 0) else f["plan"]
@@ -611,7 +613,7 @@ def shrink_prog_failure(f):
     last = pl[-1].split()
     if tkey is not None:
         last = tkey.split()
-        last[0] = {"P": "prog", "H": "callh", "W": "wide", "B": "callb"}.get(last[0], last[0])
+        last[0] = {"P": "prog", "H": "callh", "W": "wide", "B": "callb", "T": "callm"}.get(last[0], last[0])
     if last[0] == "prog" and not any(l.startswith("ORDER") for l in f["lines"]) and _t.time() < deadline:
         try:
             def run_engine_env(exe, engs, t, p, workdir, tag, timeout=25, quiet=True):
@@ -641,9 +643,13 @@ def stage_programs():
     stats = {}
     G = c03_gen.BLOCK_GRID    # every (ints before, doubles before, block class, size) position, walked by a bijection
     g0 = rng.below(len(G))
+    RG = c03_gen.RESULT_GRID  # every 1-, 2-, 3-tuple of result types the convention can return, walked the same way
+    r0 = rng.below(len(RG))
     for k in range(nprog):
         pos = [G[(g0 + k * 4 + j) * 263 % len(G)] for j in range(4)]
-        P = c03_gen.gen_c03_program(rng, f"c{k}", opts=dict(jmpi=(k % 2 == 1)), many_doubles=(k % 3 == 0), block_positions=pos)
+        tup = [RG[(r0 + k * 2 + j) * 331 % len(RG)] for j in range(2)]
+        P = c03_gen.gen_c03_program(rng, f"c{k}", opts=dict(jmpi=(k % 2 == 1)), many_doubles=(k % 3 == 0), block_positions=pos,
+                                    result_tuples=tup)
         calls = c03_gen.calls_for(P, mirgen.ARGSETS if (not quick or k % 2 == 0) else mirgen.ARGSETS[:3], rng)
         plans = [c03_gen.plan_from(calls), c03_gen.plan_from(c03_gen.permute(rng, calls))]
         if not quick:
@@ -731,7 +737,9 @@ def stage_programs():
                      "failures_c03": classes["c03"], "failures_not_classified_after_enough_reports": classes.get("unclassified", 0), "c01_class_samples": c01_samples,
                      "engine_sets": [ENG5] + LEVELS + MIXES + [["interp", "interpc", "gen2", "lazy2", "bb2", "(allocator clobbers only xmm8-15 / all but xmm8-15)"]],
                      "block_param_grid": {"positions": len(G), "functions_generated": 4 * nprog,
-                                          "grid_covered_times": round(4 * nprog / len(G), 2)}}
+                                          "grid_covered_times": round(4 * nprog / len(G), 2)},
+                     "multi_result_grid": {"tuples": len(RG), "functions_generated": 2 * nprog,
+                                           "grid_covered_times": round(2 * nprog / len(RG), 2)}}
     ck.sample({"program_plan_head": progs[0][1][1].split("\n")[:8]})
     return nprog, nev
 
@@ -825,7 +833,7 @@ def replay_case(rep):
         return rc != 0 or not res or any("LOST" in l or "crash" in l or "hook=1 probe=1" not in l
                                          or (rep.get("bb_xmm_must_survive") and "clobbered:xmm" in l) for l in res), res[:3]
     rc, lines, err = run_iface(rep["engines"], rep["mir"], rep["plan"], "replay", rep.get("env"))
-    return rc != 0 or bool(bad_lines(lines)) or not any(l[:2] in ("P ", "H ", "W ", "B ") for l in lines[1:]), (bad_lines(lines) + [err[-200:]])[:4]
+    return rc != 0 or bool(bad_lines(lines)) or not any(l[:2] in ("P ", "H ", "W ", "B ", "T ") for l in lines[1:]), (bad_lines(lines) + [err[-200:]])[:4]
 
 
 def stage_corpus():
